@@ -32,7 +32,7 @@ try:
     CLI_X = c15_cli.extract(REPO)
 except Exception as e:  # noqa
     CLI_ERR = '%s: %s' % (type(e).__name__, e)
-chk.lean(['VermouthProps.C15', 'VermouthProps.C15_Cli'], 'driver_c15',
+chk.lean(['VermouthProps.C15', 'VermouthProps.C15_Cli', 'VermouthProps.C15_Num'], 'driver_c15',
          generated={'C15Cli.lean': CLI_X['lean']} if CLI_X else None)
 if CLI_ERR:
     chk.broken.append(('extract:martinize2-elastic-options', CLI_ERR))
@@ -211,11 +211,95 @@ def frac(x):
     return [f.numerator, f.denominator]
 
 
-def n5_of(length):
-    x = float(length) * 1e5
-    if x != x or abs(x) > 1e15:
-        return -1
-    return int(round(x))
+def rendered_params(inter):
+    """the parameters as the ITP writer prints them: `' '.join(str(x) for x in interaction.parameters)`"""
+    r = getattr(inter, 'rendered', None)
+    return list(r) if r is not None else [str(x) for x in inter.parameters]
+
+
+def n5_exact(text):
+    """the rendered length as an exact multiple of 1e-5 nm: integer, or None if it is no decimal number / has more
+    than 5 decimals.  No floating point involved: the decimal string is read as a fraction."""
+    try:
+        x = Fraction(text) * 10 ** 5
+    except (ValueError, ZeroDivisionError):
+        return None
+    return int(x) if x.denominator == 1 else None
+
+
+def n5_of(inter):
+    n = n5_exact(rendered_params(inter)[1])
+    return -1 if n is None else n
+
+
+def py_admissible(d2, n):
+    """|n 1e-5 - sqrt(d2)/256| <= 0.5e-5 as an integer inequality (the statement the model's bounds are checked against)"""
+    x = 4 * d2 * 3125 * 3125
+    lo = max(2 * n - 1, 0)
+    return lo * lo * 64 <= x <= (2 * n + 1) * (2 * n + 1) * 64
+
+
+LEN_CHECKS = []      # (errs list of the case, prefix, atoms, d2, rendered length): judged with the model's bounds
+
+
+def py_bounds(d2):
+    """the solution set of py_admissible(d2, .) by trying the integers around sqrt(d2)*3125/8"""
+    n0 = math.isqrt(d2 * 3125 * 3125 // 64)
+    ok = [n for n in range(max(n0 - 2, 0), n0 + 3) if py_admissible(d2, n)]
+    return min(ok), max(ok)
+
+
+def flush_len_checks():
+    """ask the model for the admissible interval of every squared distance met, check the interval against the
+    inequality it stands for, then judge the rendered lengths of the real bonds with it"""
+    d2s = sorted({c[3] for c in LEN_CHECKS})
+    bounds = {}
+    if chk.lean_ok and d2s:
+        lns = [line('lenbounds', d2) for d2 in d2s]
+        for d2, ln, r in zip(d2s, lns, chk.drv.ask(lns)):
+            chk.case('lenbounds-%d' % d2, ln, '%d %d' % py_bounds(d2), r, [], False)
+            try:
+                lo, hi = (int(x) for x in r.split())
+                bounds[d2] = (lo, hi)
+            except ValueError:
+                pass
+    for errs, prefix, atoms, d2, text in LEN_CHECKS:
+        n = n5_exact(text)
+        lo, hi = bounds.get(d2) or py_bounds(d2)
+        chk.count('length_checked_against_model_bounds' if d2 in bounds else 'length_checked_without_model')
+        if lo != hi:
+            chk.count('length_on_exact_tie')
+        if n is None or not (lo <= n <= hi):
+            errs.append('%sbond %r has length %s; the distance is sqrt(%d)/256 = %.7f nm, admissible: %s'
+                        % (prefix, atoms, text, d2, math.sqrt(d2) / UNIT, ' or '.join('%d e-5' % x for x in sorted({lo, hi}))))
+    LEN_CHECKS[:] = []
+
+
+def exact_pair(p, d2):
+    """the decay is >= 1 whatever exp is: a = 0, d = lower (p >= 1), or a > 0, d < lower and p odd; base >= 0"""
+    a, lo, pw = p['a'], p['lo'], p['pw']
+    if p['base'] < 0 or not (float(pw).is_integer() and pw >= 0):
+        return False
+    if a == 0:
+        return True
+    if lo < 0:
+        return False
+    l2 = (Fraction(lo) * UNIT) ** 2
+    if pw >= 1 and d2 == l2:
+        return True
+    return a > 0 and int(pw) % 2 == 1 and d2 < l2
+
+
+def decay_spec(p):
+    pw = p['pw']
+    if float(pw).is_integer() and pw >= 0:
+        return [frac(p['a']), frac(p['lo']), int(pw)]
+    return None
+
+
+def agrees(p, d2, fc, k):
+    """exact pairs must carry the base constant bit for bit; the others agree with the formula within the tolerance"""
+    return fc == k if exact_pair(p, d2) else close(fc, k)
 
 
 def near_thr(k, thr):
@@ -306,7 +390,7 @@ def protocol_line(spec, ktab):
         dom = [2, [list(r) for r in p['dom'][1]]]
     sep = p['sep']
     params = [list(p['names']), sep, upper2_of(p), frac(p['base']), frac(p['minf']),
-              [[d2] + frac(k) for d2, k in sorted(ktab.items())], dom]
+              [[d2] + frac(k) for d2, k in sorted(ktab.items())], dom, decay_spec(p)]
     return line('run', atoms, [list(e) for e in spec['edges']], params)
 
 
@@ -363,7 +447,7 @@ def criteria_table(spec, ktab_fn):
     return out
 
 
-def oracle(spec, exc, rubber, warns, intact, table, ktab_fn):
+def oracle(spec, exc, rubber, warns, intact, table, ktab_fn, sink=None, prefix=''):
     p = spec['params']
     errs = []
     sel = selected_atoms(spec)
@@ -401,19 +485,18 @@ def oracle(spec, exc, rubber, warns, intact, table, ktab_fn):
         bt, length, fc = inter.parameters
         if bt != expected_bond_type(spec):
             errs.append('bond type %r instead of %r' % (bt, expected_bond_type(spec)))
-        n5 = n5_of(length)
-        if not (abs(float(length) * 1e5 - n5) <= 1e-6) or n5 != len5_expected(d2):
-            errs.append('bond %r has length %r, distance is sqrt(%d)/256 = %.7f' % (tuple(atoms), length, d2,
-                                                                                   math.sqrt(d2) / UNIT))
-        if not close(float(fc), k):
-            errs.append('bond %r has force constant %r, expected %r' % (tuple(atoms), fc, k))
+        LEN_CHECKS.append((errs if sink is None else sink, prefix, tuple(atoms), d2, rendered_params(inter)[1]))
+        if not agrees(p, d2, float(fc), k):
+            errs.append('bond %r has force constant %r, expected %r%s' % (tuple(atoms), fc, k,
+                        ' exactly (no decay applies to this pair)' if exact_pair(p, d2) else ''))
     for pair, n in seen.items():
         if n > 1:
             errs.append('bond %r emitted %d times' % (tuple(pair), n))
     for pair in expected:
         if pair not in seen:
             errs.append('no bond %r although all five criteria hold' % (tuple(sorted(pair)),))
-    return errs[:6]
+    del errs[6:]
+    return errs
 
 
 def expected_bond_type(spec):
@@ -605,6 +688,16 @@ def evaluate(cid, spec, stream, real=None):
     if near:
         chk.count('excluded_near_minimum_force')
         return None
+    if not exact and p['lo'] >= 0:
+        l2 = (Fraction(p['lo']) * UNIT) ** 2
+        for d2 in ktab:
+            d = math.sqrt(d2) / UNIT
+            if (d < p['lo']) != (d2 < l2) or (d == p['lo']) != (d2 == l2):
+                chk.count('excluded_float_sign_of_d_minus_lower_differs')
+                return None
+    n_exact_pairs = sum(1 for d2 in ktab if exact_pair(p, d2)) if not exact else 0
+    if n_exact_pairs:
+        chk.count('decay_cases_with_pairs_at_or_below_lower_exactly_base')
     ktab_fn = (lambda d2: p['base']) if exact else (lambda d2: ktab[d2] if d2 in ktab else k_expected(p, d2))
     exc, rubber, warns, intact = run_real(spec) if real is None else real
     table = criteria_table(spec, ktab_fn)
@@ -622,15 +715,13 @@ def evaluate(cid, spec, stream, real=None):
         for inter in rubber:
             a, b = inter.atoms
             bt, length, fc = inter.parameters
-            n5 = n5_of(length)
+            n5 = n5_of(inter)
             pa = next((pos_of(x) for x in spec['atoms'] if x['key'] == a), None)
             pb = next((pos_of(x) for x in spec['atoms'] if x['key'] == b), None)
             kexp = ktab_fn(d2_of(pa, pb)) if pa is not None and pb is not None else None
             fcf = float(fc)
-            if kexp is not None and close(fcf, kexp):
-                fcf = kexp
-            if a == b or (pa is not None and pa == pb):
-                pass
+            if kexp is not None and not exact_pair(p, d2_of(pa, pb)) and close(fcf, kexp):
+                fcf = kexp          # a constant with decay: compared within the tolerance of the numeric oracle
             bl.append([a, b, n5] + frac(fcf))
         impl = 'bonds ' + enc(bl) + (' +warning' if warns else '')
     ln = protocol_line(spec, {} if exact else ktab)
@@ -684,6 +775,7 @@ for cid, spec, stream in cases:
         results.append(r)
 lines = [r[1] for r in results]
 models = chk.drv.ask(lines) if chk.lean_ok else [None] * len(lines)
+flush_len_checks()
 for (cid, ln, impl, errs, nontriv, finding), mo in zip(results, models):
     if mo is not None and mo.startswith('error '):
         mo = 'error'
@@ -884,9 +976,9 @@ def canon_result(spec, exc, rubber, warns, ktab_fn):
         pb = next((pos_of(x) for x in spec['atoms'] if x['key'] == b), None)
         kexp = ktab_fn(d2_of(pa, pb)) if pa is not None and pb is not None else None
         fcf = float(fc)
-        if kexp is not None and close(fcf, kexp):
+        if kexp is not None and not exact_pair(spec['params'], d2_of(pa, pb)) and close(fcf, kexp):
             fcf = kexp
-        bl.append([a, b, n5_of(length)] + frac(fcf))
+        bl.append([a, b, n5_of(inter)] + frac(fcf))
     out = 'bonds ' + enc(bl) + (' +warning' if warns else '')
     if bl:
         out += ' bt=' + ','.join(str(b) for b in sorted(bts, key=str))
@@ -951,7 +1043,8 @@ for i in range(2500 if chk.thorough else 260):
         if snapshot(proc) != snap0:
             errs.append('application %d changed the processor object: %r' % (j + 1, snapshot(proc)))
         table = criteria_table(spec, ktab_fn)
-        errs += ['application %d: %s' % (j + 1, e) for e in oracle(spec, exc, rubber, warns, True, table, ktab_fn)]
+        errs += ['application %d: %s' % (j + 1, e) for e in oracle(spec, exc, rubber, warns, True, table, ktab_fn,
+                                                                     sink=errs, prefix='application %d: ' % (j + 1))]
         atoms_t = []
         for a in spec['atoms']:
             pos = a['pos']
@@ -974,6 +1067,7 @@ for i in range(2500 if chk.thorough else 260):
     hist_lines.append(line('history', proc_tokens(cfg), mols))
     hist_meta.append(('history-%d' % i, ' ; '.join(impls), errs, nontriv and len(seps) > 1))
 hist_models = chk.drv.ask(hist_lines) if chk.lean_ok else [None] * len(hist_lines)
+flush_len_checks()
 for ln, (cid, impl, errs, nt), mo in zip(hist_lines, hist_meta, hist_models):
     chk.case(cid, ln, impl, mo, errs, nt)
 
@@ -1109,10 +1203,10 @@ arr = np.sqrt(np.array(d2s, dtype=float) / (UNIT * UNIT)).round(5)
 llines = [line('len5', d2) for d2 in d2s]
 lmodels = chk.drv.ask(llines) if chk.lean_ok else [None] * len(llines)
 for d2, ln, val, mo in zip(d2s, llines, arr, lmodels):
-    n5 = int(round(float(val) * 1e5))
+    n5 = n5_exact(str(val))
     errs = []
-    if n5 != len5_expected(d2):
-        errs.append('round(sqrt(%d)/256, 5) = %r, nearest 1e-5 multiple is %d' % (d2, val, len5_expected(d2)))
+    if n5 is None or not py_admissible(d2, n5):
+        errs.append('round(sqrt(%d)/256, 5) = %s, nearest 1e-5 multiple is %d' % (d2, val, len5_expected(d2)))
     chk.count('len5_cases')
     chk.case('len5-%d' % d2, ln, str(n5), mo, errs, False)
 
@@ -1202,6 +1296,7 @@ if CLI_HANDLE is not None:
     mres = [evaluate(cid, spec, stream, real) for cid, spec, stream, real in mol_cases]
     mres = [r for r in mres if r is not None]
     mmod = chk.drv.ask([r[1] for r in mres]) if chk.lean_ok else [None] * len(mres)
+    flush_len_checks()
     for (cid, ln, impl, errs, nontriv, finding), mo in zip(mres, mmod):
         if mo is not None and mo.startswith('error '):
             mo = 'error'
